@@ -1,7 +1,10 @@
 #!/bin/sh
 # Build the overlay venv used by every check (offline; wheels from /opt/veriftools/wheels).
+# The venv lives next to the checkout this script belongs to (./.venv), so a snapshot of /verif
+# (vp run) builds its own.
 set -e
-V=/verif/.venv
+HERE=$(cd "$(dirname "$0")/.." && pwd)
+V=$HERE/.venv
 if [ -x "$V/bin/python" ] && "$V/bin/python" -c "import z3, cvc5, jsonschema, regex, pytz" 2>/dev/null; then
   exit 0
 fi
